@@ -20,7 +20,7 @@ from ..dataflow import forward, target_names, single_assign_subst
 from .C10 import parser_line_loop, check_default_t
 from ..inline import flatten
 
-TECHNIQUE = ("static analysis: flow-sensitive taint analysis (raw line vs comment-stripped text) with branch refinement over the CFG of the flattened parser loop; bounded path enumeration of the classification loop; reader/writer table agreement (replace chains); branch-outcome facts for '='-splits elsewhere; lint of emitted comment lines")
+TECHNIQUE = ("static analysis: flow-sensitive taint analysis (raw line vs comment-stripped text) with branch refinement over the CFG of the flattened parser loop; bounded path enumeration of the classification loop; reader/writer table agreement (replace chains); branch-outcome facts for '='-splits elsewhere; lint of emitted comment lines; bounded-split lint; must-pass-through of the class resets; the reserved-k clause of C11.R3 recorded as R4")
 EXPLANATION = (
     'Taint analysis of the parser line loop: the raw line may carry comment text; every branch condition and every value '
     'stored into a class container must be computed from the comment-stripped text (or be conjoined with a test that the '
@@ -605,6 +605,38 @@ def run(prog, check):
                      'the text is cut at every %r and unpacked into %d names: a second %r in the comment / description raises ValueError, so '
                      'the equation is accepted or refused depending on its comment' % (v_.args[0].value, k_, v_.args[0].value),
                      "a declaration 'x = y # item #3'")
+    # a row is (name, right-hand side, description): every place that builds an Equation from a row takes the same item for the same
+    # argument (cross-check of sibling call sites; a description parsed as a right-hand side makes the model depend on its wording)
+    for fn in prog.all_functions():
+        if '/deprecated/' in fn.module.rel:
+            continue
+        uses = []
+        for c_ in ast.walk(fn.node):
+            if isinstance(c_, ast.Call) and call_name(c_) == 'Equation':
+                kw_ = {k_.arg: k_.value for k_ in c_.keywords if k_.arg}
+                idx_ = {}
+                for nm_ in ('desc', 'rhs'):
+                    v_ = kw_.get(nm_)
+                    items = [x_ for x_ in (ast.walk(v_) if v_ is not None else []) if isinstance(x_, ast.Subscript) and isinstance(x_.value, ast.Name)
+                             and isinstance(x_.slice, ast.Constant) and isinstance(x_.slice.value, int)]
+                    if items:
+                        idx_[nm_] = (items[0].value.id, items[0].slice.value)
+                if len(idx_) == 2 and idx_['desc'][0] == idx_['rhs'][0]:
+                    uses.append((c_, idx_['desc'][1], idx_['rhs'][1]))
+        if len(uses) >= 2:
+            shapes = {}
+            for c_, d_, r_ in uses:
+                shapes.setdefault((d_, r_), []).append(c_)
+            major = max(shapes.items(), key=lambda kv: len(kv[1]))[0]
+            for (d_, r_), cs_ in sorted(shapes.items()):
+                for c_ in cs_:
+                    n1 += 1
+                    check.saw(fn)
+                    check.ob('C14.R1', '%s::row-items-used-alike(%s)' % (fn.key, unparse(c_)[:60]), len(shapes) == 1, '%s:%d' % (fn.module.rel, c_.lineno),
+                             'every Equation built from a row takes item %d as description and item %d as right-hand side' % (d_, r_) if len(shapes) == 1 else
+                             'this call takes item %d of the row as description and item %d as right-hand side, another call in the same function the '
+                             'other way round: one of them parses the description as an expression' % (d_, r_),
+                             "a description with an apostrophe or an unbalanced bracket")
     # ---- R5 ----------------------------------------------------------------------------------------
     for n in ast.walk(loop):
         if isinstance(n, ast.Assign) and any(rhs_var in target_names(t) for t in n.targets):
@@ -663,7 +695,7 @@ def run(prog, check):
         from . import C11 as _c11
         b11 = Borrowed(check, lambda rule, key: rule == 'C11.R3' and 'reserved-source(k)' in key, 'C14.R4',
                        "a block with a line `k = 5.`: it must be refused, otherwise the supplied t = k is not the period")
-        _c11.run(prog, b11)
+        b11.run_lender(_c11, prog)
     check.floor('C14.R1', 10)
     check.floor('C14.R2', 8)
     check.floor('C14.R3', 5)
